@@ -404,13 +404,16 @@ def _check_tlm(ctx: Ctx, model, ed: ElementDef, eq, rng, k_points, verdict_count
     ev = model.fi(TLM, "_evaluate_subcircuit")
     ctx.instance("R2.3", "_evaluate_subcircuit classification")
     src = norm(ev.node)
-    conds = [
-        "if con is None" in src,
-        "is_open=True" in src and "is_short=False" in src,
-        any(isinstance(n, ast.keyword) and n.arg == "is_short" and "== 0" in norm(n.value) and ".size == f.size" in norm(n.value)
-            for n in walk_ordered(ev.node)),
-    ]
-    if all(conds):
+    shorts = [n for n in walk_ordered(ev.node) if isinstance(n, ast.keyword) and n.arg == "is_short" and not isinstance(n.value, ast.Constant)]
+    opens_ok = "if con is None" in src and "is_open=True" in src
+    if len(shorts) != 1 or not opens_ok:
+        raise AnalysisError("_evaluate_subcircuit no longer has the recognised open/short classification shape")
+    t = norm(shorts[0].value).replace(" ", "")
+    if any(x in t for x in ("allclose(", "isclose(", "abs(Z)<", "<1e", "<=1e")):
+        ctx.violation("R2.3", "_evaluate_subcircuit:approximate-short", TLM, shorts[0].value,
+                      f"a sub-circuit is classified as shorted by a tolerance test ({norm(shorts[0].value)}): the numeric path (all requested frequencies) and the "
+                      f"symbolic path (one probe frequency) can classify a small, frequency-dependent sub-circuit differently, so the symbolic export disagrees with the numeric impedance")
+    elif "==0" in t and (".size==f.size" in t or ".all()" in t):
         ctx.ok()
     else:
-        raise AnalysisError("_evaluate_subcircuit no longer has the recognised open/short classification shape")
+        raise AnalysisError(f"_evaluate_subcircuit: short classification {norm(shorts[0].value)} not recognised")
